@@ -1,8 +1,331 @@
 /-
 Helper lemmas for C09 (frontiers of a trie, the auditor's rebuild).
+
+* `AuditLabels`   — the prefix-freeness check of the repaired auditor (`labelsPrefixFree_iff`);
+* `AuditRebuild`  — the rebuild computes the canonical trie of opaque elements;
+* `AuditFrontier` — the frontier lemma and the core of audit soundness;
+* this file       — the pieces put together for `Auditor.consecutive` / `Auditor.verify`.
 -/
 import AkdModel.Verify
 import AkdModel.Thm.C01b
 import AkdModel.Thm.C05
-namespace Akd
-end Akd
+import AkdModel.Lemmas.AuditLabels
+import AkdModel.Lemmas.AuditRebuild
+import AkdModel.Lemmas.AuditFrontier
+namespace Akd.Aud
+open Akd
+
+/-- equality of auditor results is decidable (used by the `decide` witnesses) -/
+@[instance_reducible] def decEqResult : DecidableEq (Except VErr Unit) := fun a b =>
+  match a, b with
+  | .ok (), .ok () => isTrue rfl
+  | .error x, .error y =>
+    if h : x = y then isTrue (by rw [h]) else isFalse (by intro h'; cases h'; exact h rfl)
+  | .ok _, .error _ => isFalse (by intro h; cases h)
+  | .error _, .ok _ => isFalse (by intro h; cases h)
+
+/-! ### what acceptance means -/
+
+theorem appendOnlyHash_ok (c : Cfg) (nodes : List AzksElement) (expected : Dig) (latest : Option Nat) :
+    Auditor.appendOnlyHash c nodes expected latest = .ok () ↔
+      Auditor.rebuildRoot c nodes latest = .ok expected := by
+  unfold Auditor.appendOnlyHash
+  cases h : Auditor.rebuildRoot c nodes latest with
+  | error e => simp
+  | ok r =>
+    by_cases hr : r = expected
+    · simp [hr]
+    · simp only [hr, ↓reduceIte, reduceCtorEq, false_iff]
+      intro h'
+      cases h'
+      exact hr rfl
+
+/-- the nodes of the second rebuild -/
+def insNodes (c : Cfg) (p : NodeStore.SingleAppendOnlyProof) (ep : Nat) : List AzksElement :=
+  p.inserted.map fun x => (⟨x.label, c.leafHash x.value ep⟩ : AzksElement)
+
+theorem consecutive_ok (c : Cfg) (p : NodeStore.SingleAppendOnlyProof) (s e : Dig) (ep : Nat) :
+    Auditor.consecutive c p s e ep = .ok () ↔
+      Auditor.labelsPrefixFree ((p.unchanged ++ p.inserted).map (·.label)) = true ∧
+      Auditor.rebuildRoot c p.unchanged none = .ok s ∧ ep ≠ 0 ∧
+      Auditor.rebuildRoot c (p.unchanged ++ insNodes c p ep) (some (ep - 1)) = .ok e := by
+  unfold Auditor.consecutive
+  cases hl : Auditor.labelsPrefixFree ((p.unchanged ++ p.inserted).map (·.label)) with
+  | false => simp
+  | true =>
+    simp only [Bool.not_true, Bool.false_eq_true, ↓reduceIte, true_and]
+    cases h1 : Auditor.appendOnlyHash c p.unchanged s none with
+    | error x =>
+      simp only [reduceCtorEq, false_iff]
+      intro h
+      rw [(appendOnlyHash_ok c _ _ _).mpr h.1] at h1
+      cases h1
+    | ok u =>
+      cases u
+      have h1' := (appendOnlyHash_ok c _ _ _).mp h1
+      by_cases h0 : ep = 0
+      · simp [h0]
+      · simp only [h0, ↓reduceIte, h1', ne_eq, not_false_eq_true, true_and]
+        exact appendOnlyHash_ok c _ _ _
+
+/-! ### node lists with well-formed labels -/
+
+/-- a node as an opaque leaf -/
+def toLeaf (n : AzksElement) : Leaf := ⟨n.label.bits, n.value, 0⟩
+
+/-- the canonical trie of opaque elements over a node list -/
+def frontierOf (ns : List AzksElement) : CRoot := CRoot.ofLeaves (ns.map toLeaf)
+
+/-- well-formed labels, none empty, pairwise prefix-free -/
+structure Good (ns : List AzksElement) : Prop where
+  norm : ∀ n ∈ ns, n.label.len ≤ 256 ∧ n.label.Normalised
+  pos : ∀ n ∈ ns, 1 ≤ n.label.len
+  pf : ns.Pairwise (fun a b => ¬ a.label.bits <+: b.label.bits ∧ ¬ b.label.bits <+: a.label.bits)
+
+theorem Good.prefixFree {ns : List AzksElement} (h : Good ns) : C01.PrefixFree (ns.map toLeaf) := by
+  unfold C01.PrefixFree
+  rw [List.pairwise_map]
+  exact h.pf
+
+theorem Good.spec {ns : List AzksElement} (h : Good ns) :
+    (frontierOf ns).WF ∧ (frontierOf ns).leaves.Perm (ns.map toLeaf) := by
+  refine C01.ofLeaves_spec _ h.prefixFree ?_
+  intro x hx
+  obtain ⟨n, hn, rfl⟩ := List.mem_map.mp hx
+  intro h0
+  have h1 := bits_len n.label (h.norm n hn).1
+  have h2 := h.pos n hn
+  simp only [toLeaf] at h0
+  rw [h0] at h1
+  simp at h1
+  omega
+
+theorem Good.len_le {ns : List AzksElement} (h : Good ns) : ∀ lf ∈ (frontierOf ns).leaves, lf.lbl.length ≤ 256 := by
+  intro lf hlf
+  obtain ⟨n, hn, rfl⟩ := List.mem_map.mp (h.spec.2.mem_iff.mp hlf)
+  simp only [toLeaf]
+  rw [bits_len n.label (h.norm n hn).1]
+  exact (h.norm n hn).1
+
+/-- the rebuild over a good node list -/
+theorem Good.rebuild {ns : List AzksElement} (h : Good ns) (c : Cfg) (hc : c.emptyLabel.len = 0)
+    (latest : Option Nat) :
+    Auditor.rebuildRoot c ns latest = .ok (c.rootHash ((frontierOf ns).value c .noLeafEpoch)) := by
+  let els : List (BitStr × Dig) := ns.map fun n => (n.label.bits, n.value)
+  have e1 : (els.map fun x => (⟨NodeLabel.ofBits x.1, x.2⟩ : AzksElement)) = ns := by
+    simp only [els, List.map_map]
+    conv => rhs; rw [← List.map_id ns]
+    apply List.map_congr_left
+    intro n hn
+    simp only [Function.comp_apply, id_eq]
+    rw [C17.ofBits_bits n.label (h.norm n hn).1 (h.norm n hn).2]
+  have e2 : (els.map fun x => (⟨x.1, x.2, 0⟩ : Leaf)) = ns.map toLeaf := by
+    simp only [els, List.map_map]
+    rfl
+  have := rebuildRoot_canonical c hc els latest (by rw [e2]; exact h.prefixFree) (by
+    intro x hx
+    obtain ⟨n, hn, rfl⟩ := List.mem_map.mp hx
+    simp only
+    rw [bits_len n.label (h.norm n hn).1]
+    exact ⟨h.pos n hn, (h.norm n hn).1⟩)
+  rw [e1, e2] at this
+  exact this
+
+/-! ### the corner: an element labelled with the empty bit string -/
+
+/-- the rebuild over a single element carrying the root label: the element is dropped by
+`partition`, the root is re-hashed over two empty slots -/
+theorem rebuildRoot_rootLabel (c : Cfg) (v : Dig) (latest : Option Nat) :
+    Auditor.rebuildRoot c [⟨NodeLabel.root, v⟩] latest
+      = .ok (c.rootHash (c.parentHash c.emptyNodeHash c.emptyLabel c.emptyNodeHash c.emptyLabel)) := by
+  cases latest <;> rfl
+
+/-- an element of a pairwise prefix-free list whose label is the empty bit string is alone -/
+theorem singleton_of_nil {L : List AzksElement}
+    (hpw : L.Pairwise (fun a b => ¬ a.label.bits <+: b.label.bits ∧ ¬ b.label.bits <+: a.label.bits))
+    {x : AzksElement} (hx : x ∈ L) (h0 : x.label.bits = []) : L = [x] := by
+  obtain ⟨s, t, rfl⟩ := List.append_of_mem hx
+  rw [List.pairwise_append, List.pairwise_cons] at hpw
+  obtain ⟨_, ⟨hxt, _⟩, hsx⟩ := hpw
+  have hs : s = [] := by
+    cases s with
+    | nil => rfl
+    | cons y s =>
+      exfalso
+      exact (hsx y (by simp) x (by simp)).2 (h0 ▸ List.nil_prefix)
+  have ht : t = [] := by
+    cases t with
+    | nil => rfl
+    | cons y t =>
+      exfalso
+      exact (hxt y (by simp)).1 (h0 ▸ List.nil_prefix)
+  rw [hs, ht]; rfl
+
+/-! ### one epoch -/
+
+theorem consecutive_sound (c : Cfg) (hc : c.Lawful) (hce : c.emptyLabel.len = 0) (hfresh : C05.EmptyLabelFresh c)
+    (T₁ T₂ : CRoot) (h₁ : T₁.WF) (h₂ : T₂.WF)
+    (hl₁ : ∀ lf ∈ T₁.leaves, lf.lbl.length ≤ 256) (hl₂ : ∀ lf ∈ T₂.leaves, lf.lbl.length ≤ 256)
+    (p : NodeStore.SingleAppendOnlyProof) (e : Nat)
+    (hacc : Auditor.consecutive c p (T₁.rootHash c) (T₂.rootHash c) e = .ok ()) :
+    ∀ lf ∈ T₁.leaves, lf ∈ T₂.leaves := by
+  obtain ⟨hlpf, hr₁, _, hr₂⟩ := (consecutive_ok c p _ _ e).mp hacc
+  obtain ⟨hN, hpw⟩ := (labelsPrefixFree_iff _).mp hlpf
+  rw [List.pairwise_map] at hpw
+  have hN' : ∀ n ∈ p.unchanged ++ p.inserted, n.label.len ≤ 256 ∧ n.label.Normalised :=
+    fun n hn => hN n.label (List.mem_map.mpr ⟨n, hn, rfl⟩)
+  by_cases hcorner : ∃ n ∈ p.unchanged, n.label.len = 0
+  · -- an unchanged element carries the empty bit string: it is alone, and dropped by both rebuilds
+    obtain ⟨n, hn, hn0⟩ := hcorner
+    have hnL : n ∈ p.unchanged ++ p.inserted := List.mem_append_left _ hn
+    have hroot : n.label = NodeLabel.root := normalised_len0 n.label hn0 (hN' n hnL).2
+    have hbits : n.label.bits = [] := by
+      apply List.eq_nil_of_length_eq_zero
+      rw [bits_len n.label (hN' n hnL).1]; exact hn0
+    have hsing := singleton_of_nil hpw hnL hbits
+    have hU : p.unchanged = [n] ∧ p.inserted = [] := by
+      rcases List.append_eq_singleton_iff.mp hsing with ⟨h, _⟩ | h
+      · rw [h] at hn; cases hn
+      · exact h
+    have hn' : n = ⟨NodeLabel.root, n.value⟩ := by
+      cases n; simp only at hroot; rw [hroot]
+    simp only [insNodes, hU.1, hU.2, List.map_nil, List.append_nil] at hr₁ hr₂
+    rw [hn', rebuildRoot_rootLabel] at hr₁ hr₂
+    have heq : T₁.rootHash c = T₂.rootHash c := by
+      have a := Except.ok.inj hr₁
+      have b := Except.ok.inj hr₂
+      rw [← a, ← b]
+    have := C01.rootHash_injective c hc T₁ T₂ h₁ h₂ hl₁ hl₂ heq
+    intro lf hlf
+    rw [← this]; exact hlf
+  · -- the general case
+    have hposU : ∀ n ∈ p.unchanged, 1 ≤ n.label.len := by
+      intro n hn
+      apply Classical.byContradiction
+      intro h
+      exact hcorner ⟨n, hn, by omega⟩
+    have hpwU := (List.pairwise_append.mp hpw).1
+    have gU : Good p.unchanged :=
+      ⟨fun n hn => hN' n (List.mem_append_left _ hn), hposU, hpwU⟩
+    rw [gU.rebuild c hce none] at hr₁
+    have hv₁ : (frontierOf p.unchanged).value c .noLeafEpoch = T₁.value c .withLeafEpoch :=
+      hc.root_inj _ _ (Except.ok.inj hr₁)
+    intro lf hlf
+    obtain ⟨x, hx, -⟩ := (frontier_root c hc hfresh _ T₁ gU.spec.1 h₁ gU.len_le hl₁ hv₁).2 lf hlf
+    obtain ⟨u, hu, -⟩ := List.mem_map.mp (gU.spec.2.mem_iff.mp hx)
+    -- the inserted labels are not empty either, since `u` exists
+    have hposI : ∀ n ∈ p.inserted, 1 ≤ n.label.len := by
+      intro n hn
+      apply Classical.byContradiction
+      intro h
+      have hnL : n ∈ p.unchanged ++ p.inserted := List.mem_append_right _ hn
+      have hbits : n.label.bits = [] := by
+        apply List.eq_nil_of_length_eq_zero
+        rw [bits_len n.label (hN' n hnL).1]; omega
+      exact ((List.pairwise_append.mp hpw).2.2 u hu n hn).2 (hbits ▸ List.nil_prefix)
+    have gA : Good (p.unchanged ++ insNodes c p e) := by
+      refine ⟨?_, ?_, ?_⟩
+      · intro n hn
+        rcases List.mem_append.mp hn with h | h
+        · exact hN' n (List.mem_append_left _ h)
+        · obtain ⟨m, hm, rfl⟩ := List.mem_map.mp h
+          exact hN' m (List.mem_append_right _ hm)
+      · intro n hn
+        rcases List.mem_append.mp hn with h | h
+        · exact hposU n h
+        · obtain ⟨m, hm, rfl⟩ := List.mem_map.mp h
+          exact hposI m hm
+      · obtain ⟨pU, pI, pUI⟩ := List.pairwise_append.mp hpw
+        refine List.pairwise_append.mpr ⟨pU, ?_, ?_⟩
+        · unfold insNodes
+          rw [List.pairwise_map]
+          exact pI
+        · intro a ha b hb
+          obtain ⟨m, hm, rfl⟩ := List.mem_map.mp hb
+          exact pUI a ha m hm
+    rw [gA.rebuild c hce (some (e - 1))] at hr₂
+    have hv₂ : (frontierOf (p.unchanged ++ insNodes c p e)).value c .noLeafEpoch = T₂.value c .withLeafEpoch :=
+      hc.root_inj _ _ (Except.ok.inj hr₂)
+    refine audit_core c hc hfresh _ _ T₁ T₂ gU.spec.1 gA.spec.1 h₁ h₂ gU.len_le gA.len_le hl₁ hl₂ hv₁ hv₂ ?_ lf hlf
+    intro y hy
+    refine ⟨y, ?_, rfl, rfl⟩
+    apply gA.spec.2.mem_iff.mpr
+    rw [List.map_append]
+    exact List.mem_append_left _ (gU.spec.2.mem_iff.mp hy)
+
+/-! ### many epochs -/
+
+theorem go_sound (c : Cfg) (hc : c.Lawful) (hce : c.emptyLabel.len = 0) (hfresh : C05.EmptyLabelFresh c) :
+    ∀ (Ts : List CRoot) (prs : List NodeStore.SingleAppendOnlyProof) (eps : List Nat),
+    (∀ t ∈ Ts, t.WF ∧ ∀ lf ∈ t.leaves, lf.lbl.length ≤ 256) →
+    eps.length + 1 = Ts.length → eps.length = prs.length →
+    Auditor.verify.go c (Ts.map (CRoot.rootHash c)) prs eps = .ok () →
+    ∀ (i : Nat) (t₁ t₂ : CRoot), Ts[i]? = some t₁ → Ts[i + 1]? = some t₂ → ∀ lf ∈ t₁.leaves, lf ∈ t₂.leaves
+  | [], _, _, _, h, _, _ => by simp at h
+  | [_], _, _, _, _, _, _ => by
+    intro i t₁ t₂ _ h2
+    simp at h2
+  | a :: b :: Ts, [], eps, _, h1, h2, _ => by
+    simp only [List.length_nil] at h2
+    rw [h2] at h1
+    simp at h1
+  | a :: b :: Ts, pr :: prs, [], _, _, h2, _ => by simp at h2
+  | a :: b :: Ts, pr :: prs, ep :: eps, hwf, h1, h2, hgo => by
+    simp only [List.map_cons, Auditor.verify.go] at hgo
+    cases hcons : Auditor.consecutive c pr (a.rootHash c) (b.rootHash c) (ep + 1) with
+    | error x => rw [hcons] at hgo; cases hgo
+    | ok u =>
+      cases u
+      rw [hcons] at hgo
+      simp only at hgo
+      have ha := hwf a (by simp)
+      have hb := hwf b (by simp)
+      have step := consecutive_sound c hc hce hfresh a b ha.1 hb.1 ha.2 hb.2 pr (ep + 1) hcons
+      have ih := go_sound c hc hce hfresh (b :: Ts) prs eps
+        (fun t ht => hwf t (List.mem_cons_of_mem _ ht))
+        (by simp only [List.length_cons] at h1 ⊢; omega)
+        (by simp only [List.length_cons] at h2; omega)
+        (by simpa only [List.map_cons] using hgo)
+      intro i t₁ t₂ hi hj
+      cases i with
+      | zero =>
+        simp only [List.getElem?_cons_zero, Option.some.injEq, Nat.zero_add, List.getElem?_cons_succ] at hi hj
+        subst hi hj
+        exact step
+      | succ i =>
+        simp only [List.getElem?_cons_succ] at hi hj
+        exact ih i t₁ t₂ hi (by simpa only [List.getElem?_cons_succ] using hj)
+
+theorem verify_sound (c : Cfg) (hc : c.Lawful) (hce : c.emptyLabel.len = 0) (hfresh : C05.EmptyLabelFresh c)
+    (Ts : List CRoot) (hwf : ∀ t ∈ Ts, t.WF ∧ ∀ lf ∈ t.leaves, lf.lbl.length ≤ 256)
+    (p : NodeStore.AppendOnlyProof)
+    (hacc : Auditor.verify c (Ts.map (CRoot.rootHash c)) p = .ok ()) :
+    ∀ (i j : Nat), i ≤ j → ∀ (t₁ t₂ : CRoot), Ts[i]? = some t₁ → Ts[j]? = some t₂ →
+      ∀ lf ∈ t₁.leaves, lf ∈ t₂.leaves := by
+  unfold Auditor.verify at hacc
+  simp only [List.length_map, ne_eq, ite_not] at hacc
+  split at hacc
+  · rename_i h1
+    split at hacc
+    · rename_i h2
+      have step := go_sound c hc hce hfresh Ts p.proofs p.epochs hwf h1 h2 hacc
+      intro i j hij
+      obtain ⟨k, rfl⟩ := Nat.exists_eq_add_of_le hij
+      clear hij
+      induction k with
+      | zero =>
+        intro t₁ t₂ hi hj lf hlf
+        rw [Nat.add_zero, hi] at hj
+        cases hj
+        exact hlf
+      | succ k ih =>
+        intro t₁ t₂ hi hj lf hlf
+        have hjlt : i + k < Ts.length := by
+          have := (List.getElem?_eq_some_iff.mp hj).1
+          omega
+        exact step (i + k) Ts[i + k] t₂ (List.getElem?_eq_getElem hjlt) hj lf
+          (ih t₁ Ts[i + k] hi (List.getElem?_eq_getElem hjlt) lf hlf)
+    · cases hacc
+  · cases hacc
+
+end Akd.Aud
